@@ -26,7 +26,7 @@ def wire_impl(v):
     if v is EMPTY:
         return '_'
     if isinstance(v, XlError):
-        return 'x' + str(v)
+        return 'x' + str.__str__(v)       # XlCircular prints as '0'; its identity is '#CIRC!'
     if isinstance(v, bool):
         return 'b1' if v else 'b0'
     if isinstance(v, str):
